@@ -135,3 +135,47 @@ Theorem C04_structural_weight_loads_of_the_half_model_are_the_left_half_of_the_f
     struct_weight_loads nodes nf g lf em j c = struct_weight_loads nodes ne g lf em j c.
 Proof. exact struct_weight_loads_half_is_left_half_of_full. Qed.
 Print Assumptions C04_structural_weight_loads_of_the_half_model_are_the_left_half_of_the_full_model.
+
+(* ---- the folding theorem instantiated with the model's own influence matrix (Real/SymAssembled.v) ----
+   Aic npx n2 alpha vm Pt Nn pi pj qi qj = sum_d vel_mtx(full-span code path, lattice vm, point Pt pi pj)(qi, qj, d) * Nn pi pj d;
+   rhs Nn fs pi pj = - fs . Nn pi pj.  For ANY mirror-symmetric mesh (any npx, any n2 panels per side) the lattice
+   (qc_rows), the collocation points and the unit normals are mirror symmetric, hence so is the system at zero sideslip *)
+From OAS Require Import SymAssembled.
+Theorem C04_mirror_symmetric_mesh_has_mirror_symmetric_system :
+  forall npx n2 alpha v (m : nat -> nat -> nat -> R),
+    (forall i j k, (j <= 2 * n2)%nat -> (k < 3)%nat -> m i (2 * n2 - j)%nat k = My (m i j) k) ->
+    let A := Aic npx n2 alpha (qc_rows npx m) (coll_pts m) (g_normals m) in
+    let b := rhs (g_normals m) (freestream alpha 0 v) in
+    let sg := fun j => (2 * n2 - 1 - j)%nat in
+    (forall pi pj qi qj, (pj < 2 * n2)%nat -> (qj < 2 * n2)%nat -> A pi (sg pj) qi (sg qj) = A pi pj qi qj) /\
+    (forall pi pj, (pj < 2 * n2)%nat -> b pi (sg pj) = b pi pj).
+Proof.
+  intros npx n2 alpha v m Hm A b sg. split.
+  - intros. apply Aic_sym; try assumption.
+    + intros i j k Hj Hk. apply qc_rows_sym; assumption.
+    + intros pi' pj' k Hj Hk. apply coll_pts_sym; assumption.
+    + intros pi' pj' k Hj Hk. apply normals_sym; assumption.
+  - intros. apply rhs_sym; try assumption.
+    + intros pi' pj' k Hj Hk. apply normals_sym; assumption.
+    + unfold freestream, mk3; cbn. replace (0 * PI / 180) with 0 by (unfold Rdiv; ring). rewrite sin_0. ring.
+Qed.
+Print Assumptions C04_mirror_symmetric_mesh_has_mirror_symmetric_system.
+
+(* end to end: the half model - the SYMMETRIC code path (vel_mtx with the symmetry flag on) on the ghost lattice of a half
+   mesh whose root column lies on y = 0 - and the full-span model of the mirrored mesh have the same solution: the mirror
+   extension of the half model's circulations solves every row of the full-span system *)
+Theorem C04_half_model_solution_is_the_full_model_solution :
+  forall npx n2 alpha v (mh : nat -> nat -> nat -> R) (Gh : nat -> nat -> R),
+    (forall i, mh i n2 1%nat = 0) ->
+    let m := ghost_mesh n2 true mh in
+    let vm := qc_rows npx m in
+    let Asym := fun pi pj qi qj =>
+        rsum 3 (fun d => vel_mtx npx n2 true false false alpha (get_vectors (fun _ => coll_pts m pi pj) vm) 0 qi qj d * g_normals m pi pj d) in
+    let A := Aic npx n2 alpha vm (coll_pts m) (g_normals m) in
+    let b := rhs (g_normals m) (freestream alpha 0 v) in
+    (forall pi pj, (pi < npx)%nat -> (pj < n2)%nat ->
+        rsum npx (fun qi => rsum n2 (fun qj => Asym pi pj qi qj * Gh qi qj)) = b pi pj) ->
+    forall pi pj, (pi < npx)%nat -> (pj < 2 * n2)%nat ->
+      rsum npx (fun qi => rsum (2 * n2) (fun qj => A pi pj qi qj * Gfull n2 Gh qi qj)) = b pi pj.
+Proof. exact half_model_is_full_model. Qed.
+Print Assumptions C04_half_model_solution_is_the_full_model_solution.
